@@ -130,6 +130,12 @@ pub fn oracle_sx(ast: &full_moon::ast::Ast, std: &StandardLibrary) -> Sx {
 
 pub fn programs(args: &Args, out: &mut Out, rng: &mut Rng, corpus_dir: &str) -> Vec<(String, String)> {
     let mut programs: Vec<(String, String)> = Vec::new();
+    // one-program mode (the check's shrinker): only the given file
+    if let Ok(path) = std::env::var("VERIF_ONLY_PROGRAM") {
+        if let Ok(s) = std::fs::read_to_string(&path) {
+            return vec![("shrink:candidate".to_owned(), s)];
+        }
+    }
     if let Ok(rd) = std::fs::read_dir(corpus_dir) {
         let mut paths: Vec<_> = rd.filter_map(|e| e.ok()).map(|e| e.path()).collect();
         paths.sort();
